@@ -126,6 +126,7 @@ fn replay_file(ctx: &mut Ctx, path: &std::path::Path, all: &[Box<dyn DynCheck>],
             // a replayed failure points at the committed replay file, not at a new finding
             match r {
                 CaseResult::Fail(msg) => {
+                    engine::VIOLATION_PRINTED.store(true, std::sync::atomic::Ordering::SeqCst);
                     println!("VIOLATION property={} replay={}", rf.property, path.display());
                     println!("  check={} {}", rf.check, runner::trunc(&msg, 2000));
                     ctx.violations.push(Violation { check: rf.check.clone(), msg, replay: path.to_path_buf() });
